@@ -1403,6 +1403,74 @@ impl DhtCoreEngine {
     }
 }
 
+/// Deterministic-simulation constructor and read-only accessors (only with feature
+/// `verif-hooks`).
+#[cfg(feature = "verif-hooks")]
+impl DhtCoreEngine {
+    /// Engine with the chosen close-group enforcement mode (the mode constructor is crate-private).
+    pub fn verif_new(node_id: NodeId, log_only: bool) -> Result<Self> {
+        Self::new_with_validation_mode(
+            node_id,
+            if log_only {
+                CloseGroupEnforcementMode::LogOnly
+            } else {
+                CloseGroupEnforcementMode::Strict
+            },
+        )
+    }
+
+    /// Replace the IP-diversity enforcer (configuration / GeoIP table drawn by the simulation).
+    pub async fn verif_set_ip_enforcer(&self, enforcer: IPDiversityEnforcer) {
+        *self.ip_diversity_enforcer.write().await = enforcer;
+    }
+
+    /// Every routing-table entry, bucket by bucket.
+    pub async fn verif_routing_entries(&self) -> Vec<NodeInfo> {
+        let routing = self.routing_table.read().await;
+        routing
+            .buckets
+            .iter()
+            .flat_map(|b| b.get_nodes().iter().cloned())
+            .collect()
+    }
+
+    /// Per-level admission counters of the IP-diversity enforcer.
+    pub async fn verif_ip_counts(&self) -> std::collections::BTreeMap<String, usize> {
+        self.ip_diversity_enforcer.read().await.verif_counts()
+    }
+
+    /// Admitted nodes per geographic region.
+    pub async fn verif_region_counts(&self) -> std::collections::BTreeMap<String, usize> {
+        self.geographic_diversity_enforcer
+            .read()
+            .await
+            .region_counts
+            .iter()
+            .map(|(r, c)| (format!("{r:?}"), *c))
+            .collect()
+    }
+
+    /// Local store contents.
+    pub async fn verif_store_entries(&self) -> Vec<(DhtKey, Vec<u8>)> {
+        let store = self.data_store.read().await;
+        store
+            .data
+            .iter()
+            .map(|(k, v)| (k.clone(), v.clone()))
+            .collect()
+    }
+
+    /// The eviction manager shared with the maintenance task.
+    pub fn verif_eviction_manager(&self) -> Arc<RwLock<EvictionManager>> {
+        self.eviction_manager.clone()
+    }
+
+    /// Number of pending core-engine queries.
+    pub async fn verif_pending_requests_len(&self) -> usize {
+        self.pending_requests.read().await.len()
+    }
+}
+
 // Manual Debug implementation to avoid cascade of Debug requirements
 impl std::fmt::Debug for DhtCoreEngine {
     fn fmt(&self, f: &mut std::fmt::Formatter<'_>) -> std::fmt::Result {
